@@ -285,3 +285,33 @@ Fixpoint run_clean (s : state) (os : list op) : option state :=
 Inductive reachable (s : state) : nid -> Prop :=
 | reach_obs o n : obs s !! o = Some n -> reachable s n
 | reach_decl n p : reachable s n -> p ∈ decl (nd s n) -> reachable s p.
+
+(** * Lifecycle statements (C10), on the chronological log [rev (log s)] *)
+(** the necessity events of [n] alternate; [expectNec]: the next one must be [EvNec n] *)
+Fixpoint alternates (n : nid) (expectNec : bool) (l : list event) : Prop :=
+  match l with
+  | [] => True
+  | EvNec m :: l' => if decide (m = n) then expectNec = true /\ alternates n false l' else alternates n expectNec l'
+  | EvUnnec m :: l' => if decide (m = n) then expectNec = false /\ alternates n true l' else alternates n expectNec l'
+  | _ :: l' => alternates n expectNec l'
+  end.
+
+(** the node whose function (or cutoff predicate, or bind function) an event reports as run *)
+Definition ev_runs (e : event) : option nid :=
+  match e with
+  | EvInvoked n _ _ | EvCutoff n _ _ _ | EvBindFn n _ _ => Some n
+  | _ => None
+  end.
+
+(** [run_clean] without the extra demands [op_clean]: only [op_ok], no crash, no rejection *)
+Fixpoint run_unrejected (s : state) (os : list op) : option state :=
+  match os with
+  | [] => Some s
+  | o :: os =>
+    if op_ok s o then
+      match step s o with
+      | Ok (s', e) => if rejected e then None else run_unrejected s' os
+      | _ => None
+      end
+    else None
+  end.
